@@ -156,7 +156,8 @@ class C16(Check):
         if len(data) > (2 << 20) and case['data']['kind'] in ('zeros', 'text'):
             out.tags.append('multi-MiB-compressible')
 
-        c = subscribe2(rx.from_(chunks).pipe(comp_op()), out, 'compress', same=lambda x, y: b''.join(x) == b''.join(y))
+        small = len(data) < (1 << 16)
+        c = subscribe2(rx.from_(chunks).pipe(comp_op()), out, 'compress', same=lambda x, y: b''.join(x) == b''.join(y), abuse=small)
         if c.err is not None or not c.done:
             return out.fail('compress-failed', error=repr(c.err), done=c.done)
         if not all(isinstance(x, bytes) for x in c.out):
@@ -178,7 +179,7 @@ class C16(Check):
             if sum(1 for x in ch if x) >= 2:
                 out.nontrivial = True
             if len(data) < (1 << 20) or r is case['rechunks'][0]:
-                d = subscribe2(rx.from_(ch).pipe(decomp_op()), out, 'decompress', same=lambda x, y: b''.join(x) == b''.join(y))
+                d = subscribe2(rx.from_(ch).pipe(decomp_op()), out, 'decompress', same=lambda x, y: b''.join(x) == b''.join(y), abuse=small)
             else:
                 d = subscribe(rx.from_(ch).pipe(decomp_op()), Snap())
             out.observed['rechunkings_checked'] += 1
@@ -217,7 +218,7 @@ class C16(Check):
             if t >= 2:
                 variants.append([pre[:t // 2], pre[t // 2:]])
             for ch in variants:
-                d = subscribe2(rx.from_(ch).pipe(decomp_op()), out, 'decompress(truncated)', same=lambda x, y: True)
+                d = subscribe2(rx.from_(ch).pipe(decomp_op()), out, 'decompress(truncated)', same=lambda x, y: True, abuse=False)
                 out.observed['truncations_checked'] += 1
                 if d.done:
                     out.fail('truncated-stream-completed', trunc=t, compressed_len=len(comp),
